@@ -970,3 +970,33 @@ func c11Bitmap(c *Ctx, progs map[string]*WireProg) {
 	}
 	c.Min("bitmap", 11)
 }
+
+// checkMirrorKey re-decides the encoder/decoder mirror of one codec pair (used by properties that
+// depend on a specific codec).
+func checkMirrorKey(c *Ctx, progs map[string]*WireProg, rule, key string) {
+	var enc, dec *WireProg
+	for _, n := range sortedKeys(progs) {
+		wp := progs[n]
+		if wp.Side == "hash" || pairKey(wp) != key {
+			continue
+		}
+		if wp.Side == "enc" {
+			enc = wp
+		} else {
+			dec = wp
+		}
+	}
+	if enc == nil || dec == nil {
+		c.Undecided(rule, key, "", "codec pair does not resolve")
+		return
+	}
+	where := c.P.Pos(enc.Decl.Pos())
+	if len(enc.Opaque)+len(dec.Opaque) > 0 {
+		c.Undecided(rule, key, where, "wire program contains constructs the extractor does not model: "+strings.Join(append(enc.Opaque, dec.Opaque...), "; "))
+		return
+	}
+	ne := normaliseOps(enc.Ops, progs, enc, 0)
+	nd := normaliseOps(dec.Ops, progs, dec, 0)
+	diffs := mirrorDiff(ne, nd, "")
+	c.Check(len(diffs) == 0, rule, key, where, ifElse(len(diffs) == 0, fmt.Sprintf("%d ops mirror %s", len(ne), dec.Name), "decoder does not mirror encoder: "+strings.Join(diffs, " | ")))
+}
